@@ -1,0 +1,36 @@
+//! Thin wrappers exposing crate-internal candidate operations to the external
+//! runtime-verification harness. Only compiled with the `verif_hooks` feature.
+use std::ops::Bound;
+
+use crate::ir::FieldValue;
+
+use super::{CandidateValue, Range};
+
+pub fn intersect(
+    mut a: CandidateValue<FieldValue>,
+    b: CandidateValue<FieldValue>,
+) -> CandidateValue<FieldValue> {
+    a.intersect(b);
+    a
+}
+
+pub fn normalize(mut a: CandidateValue<FieldValue>) -> CandidateValue<FieldValue> {
+    a.normalize();
+    a
+}
+
+pub fn exclude_single_value(
+    mut a: CandidateValue<FieldValue>,
+    value: &FieldValue,
+) -> CandidateValue<FieldValue> {
+    a.exclude_single_value(value);
+    a
+}
+
+pub fn range_new(
+    start: Bound<FieldValue>,
+    end: Bound<FieldValue>,
+    null_included: bool,
+) -> Range<FieldValue> {
+    Range::new(start, end, null_included)
+}
